@@ -151,8 +151,11 @@ def tagHasControl (tag : String) : Bool :=
   ["input", "odk:rank", "osm", "range", "select", "select1", "trigger", "upload"].contains tag
 
 def hasBindCells (r : Cells) : Bool := hasPrefix r "bind::"
+/-- `self.label or self.hint`; an unlabelled element whose appearance is exactly `label` gets the
+    label `" "` (`SurveyElement.__init__`, survey_element.py 127-137) -/
 def hasLabelOrHint (r : Cells) : Bool :=
-  has r "label" || hasPrefix r "label::" || has r "hint" || hasPrefix r "hint::"
+  has r "label" || hasPrefix r "label::" || has r "hint" || hasPrefix r "hint::" ||
+  get r "control::appearance" = some "label".toList
 
 /-- facts of an ordinary question of (table) type `t` -/
 def qdata (name : Str) (t : Str) (r : Cells) : Option QData :=
